@@ -74,7 +74,7 @@ func cfgS2(prop string, seed uint64, tier string) *RunCfg {
 	}
 	for w := 0; w < nw; w++ {
 		for i := 0; i < per; i++ {
-			kind := []string{"incr", "incr", "uniq", "gen", "gen", "refs", "select", "select", "bulk", "fail"}[r.Intn(10)]
+			kind := []string{"incr", "incr", "uniq", "gen", "gen", "refs", "select", "select", "bulk", "fail", "cas", "cas"}[r.Intn(12)]
 			if prop == "C03" || prop == "C15" {
 				// mostly generated transactions (full where clauses / named uuids), evaluated while others are in flight
 				kind = []string{"gen", "gen", "gen", "gen", "incr", "uniq", "select", "bulk"}[r.Intn(8)]
@@ -212,6 +212,18 @@ func (s *s2) issue(w int) {
 		ops = []Op{
 			{"op": "select", "table": "Root", "where": []any{[]any{"_uuid", "==", []any{"uuid", u}}}, "columns": []string{"num"}},
 			{"op": "mutate", "table": "Root", "where": []any{[]any{"_uuid", "==", []any{"uuid", u}}}, "mutations": []any{[]any{"num", "+=", 1}}},
+			marker,
+		}
+	case "cas":
+		// compare-and-set: add one to a counter only if it still holds the value
+		// read when the transaction was built; the reply's count says whether it did
+		u := s.counterRows[ct.spec.Arg%len(s.counterRows)]
+		k := int64(0)
+		if v := st["Root"][u]["num"]; len(v.Set) == 1 {
+			k = v.Set[0].I
+		}
+		ops = []Op{
+			{"op": "update", "table": "Root", "where": []any{[]any{"_uuid", "==", []any{"uuid", u}}, []any{"num", "==", k}}, "row": map[string]any{"num": k + 1}},
 			marker,
 		}
 	case "uniq":
@@ -513,6 +525,12 @@ func (s *s2) check(commitBase int) {
 			case "incr":
 				if !ct.failed {
 					incr[s.counterRows[ct.spec.Arg%len(s.counterRows)]]++
+				}
+			case "cas":
+				if !ct.failed && len(ct.res) > 0 && ct.res[0].Count == 1 {
+					incr[s.counterRows[ct.spec.Arg%len(s.counterRows)]]++
+				} else if !ct.failed {
+					incr[s.counterRows[ct.spec.Arg%len(s.counterRows)]] += 0
 				}
 			case "uniq":
 				n := fmt.Sprintf("uniq-%d", ct.spec.Arg)
